@@ -882,6 +882,9 @@ def minimise(v):
 
 
 def replay(payload, warmed=False):
+    if payload.get("engine_part") == "inline":
+        from . import e1_inline
+        return e1_inline.replay(payload)
     if not warmed:
         warm()
     r = one_run(PROP, 0, 0, None, case=payload["case"])
@@ -904,7 +907,7 @@ def check(tier):
     rep.assumptions = ["process-crash semantics (page cache survives), not power loss: Cache.py does no fsync and promises none",
                        "kills happen only at Cache.py seam points; a kill while the compiler writes the C file is C46's business",
                        "an unfaulted invocation that fails only while overlapping another one is counted (probe), not alarmed: the statement is about stale results"]
-    budget = core.env_budget(75 if tier == "quick" else 900)
+    budget = core.env_budget(60 if tier == "quick" else 900)
     deadline = time.time() + budget
     cfg = {"maxsteps": 7 if tier == "quick" else 10, "fault_run_rate": 0.45, "same_process_rate": 0.0, "case_timeout_s": 120}
     n = 900 if tier == "quick" else 10 ** 8
@@ -922,7 +925,29 @@ def check(tier):
         start += batch
         if viol:
             break
-    core.replay_known(PROP, lambda p: replay(p, warmed=True), rep)
+    # second clause of the statement: cython.inline's module cache (E1b)
+    from . import e1_inline
+    ibudget = 45 if tier == "quick" else budget * 0.4
+    ideadline = time.time() + ibudget
+    icfg = {"maxlen": 6 if tier == "quick" else 9, "fault_rate": 0.4, "case_timeout_s": 600}
+    istart, ibatch, iviol = 0, 64, []
+    while time.time() < ideadline - 15 and not iviol and istart < (10 ** 6 if tier != "quick" else 256):
+        results = core.run_batch(e1_inline.one_run, PROP, seed, range(istart, istart + ibatch), icfg, chunk=1, deadline=ideadline)
+        for i, r in results:
+            if "harness_error" in r:
+                if r.get("timeout") or "deadline" in str(r["harness_error"]):
+                    rep.probes["inline_runs_cut_by_budget"] = rep.probes.get("inline_runs_cut_by_budget", 0) + 1
+                else:
+                    rep.harness_errors.append(r["harness_error"])
+                continue
+            rep.absorb(r)
+            if "violation" in r:
+                iviol.append((i, r["violation"]))
+        istart += ibatch
+    for i, v in iviol[:1]:
+        v = e1_inline.minimise(v)
+        rep.violation("%s: %s (inline run %s)" % (v["klass"], json.dumps(v["detail"]), i), dict(v, seed=seed, run_index=i))
+    core.replay_known(PROP, lambda p: (e1_inline.replay(p) if p.get("engine_part") == "inline" else replay(p, warmed=True)), rep)
     chk = [0, 1, 2, 3, 4, 5, 6, 7]
     a = dict(core.run_batch(one_run, PROP, seed, chk, cfg, jobs=2, chunk=4))
     b = dict(core.run_batch(one_run, PROP, seed, chk, cfg, jobs=4, chunk=1))
